@@ -176,6 +176,18 @@ def normzero(s):
     return ZERO.sub(r'\1', s)
 
 
+def deep_merge(cur, new):
+    """members not sent keep their current value, also inside nested structs"""
+    if isinstance(cur, dict) and isinstance(new, dict):
+        res = dict(cur)
+        for k, v in new.items():
+            res[k] = deep_merge(cur.get(k), v)
+        return res
+    if isinstance(cur, list) and isinstance(new, list):
+        return [deep_merge(cur[i] if i < len(cur) else None, v) for i, v in enumerate(new)]
+    return new
+
+
 def partial_clause(ctx, T, full, part, dt, cdt):
     """a client sends a struct without some optional members: the node merges it into the current value"""
     case = {'kind': 'partial', 'T': T, 'full': full, 'part': part}
@@ -184,8 +196,7 @@ def partial_clause(ctx, T, full, part, dt, cdt):
         cur = dt.validate(full)
         j = json.loads(json.dumps(cdt.export_value(cdt.validate(part)), allow_nan=False))
         got = rm.canon(dt.validate(dt.import_value(j), cur))
-        want = dict(rm.canon(cur))
-        want.update(rm.canon(dt.validate(part)))
+        want = deep_merge(rm.canon(cur), rm.canon(dt.validate(part)))
     except Exception as e:  # noqa
         ctx.finding(f'partial:{type(e).__name__}:{frappy_frame(e)}', case, repr(e))
         return
